@@ -604,7 +604,12 @@ static void drawOptions(Rng& r, Cfg& g)
   g.goulard       = !r.coin(0.12);
   // Option_AutoFit
   g.wmode     = r.coin(0.4) ? 2 : r.irange(0, 3);
-  g.maxiter   = r.coin(0.7) ? 1000 : r.pick(std::vector<int>{1, 3, 10, 100});
+  // maxiter: the default (1000) costs up to minutes per fit under ASan when foxleg creeps; it is kept for a quarter of
+  // the cases and smaller documented values are drawn otherwise
+  {
+    double q  = r.u01();
+    g.maxiter = q < 0.25 ? 1000 : (q < 0.60 ? 100 : (q < 0.80 ? 30 : (q < 0.90 ? 10 : (q < 0.95 ? 3 : 1))));
+  }
   g.tolsigma  = r.coin(0.6) ? 5. : r.pick(std::vector<double>{0., 1., 20., 60.});
   g.tolstop   = r.coin(0.7) ? 1e-6 : r.pick(std::vector<double>{1e-3, 1e-9});
   g.epsdelta  = r.coin(0.7) ? 1e-5 : r.pick(std::vector<double>{1e-3, 1e-8});
@@ -625,7 +630,7 @@ static Cfg drawCfg(Rng& r, bool thorough)
   g.ndir = g.ndim == 1 ? 1 : r.irange(1, 4);
   g.patho = r.coin(0.45) ? P_NONE : r.irange(1, NPATHO - 1);
   g.L     = r.pick(std::vector<double>{1., 100., 100., 5000.});
-  g.npas  = r.irange(4, thorough ? 14 : 9);
+  g.npas  = r.irange(4, thorough ? 12 : 8);
   g.dpas  = g.L / 2. / g.npas;
   drawDirections(r, g);
   drawOptions(r, g);
@@ -674,7 +679,8 @@ static std::string typesKey(const Cfg& g)
 static void validateModel(Ctx& c, const Cfg& g, Model* m, const std::string& ep, double gmax)
 {
   int ncov = m->getCovaNumber();
-  std::string cls = std::string(SRCN[g.src]) + ":nvar=" + std::to_string(g.nvar);
+  std::string cls = "nvar=" + std::to_string(g.nvar);
+  bool csMulti    = !FFFF(g.constSill) && g.nvar > 1;
   // ---- map final structures to requested ones (reduction may have discarded some)
   std::vector<int> orig(ncov, -1);
   bool mapped = true;
@@ -731,7 +737,7 @@ static void validateModel(Ctx& c, const Cfg& g, Model* m, const std::string& ep,
       for (int j = 0; j < i; j++)
         if (std::fabs((double)(S(i, j) - S(j, i))) > 1e-12 * mx) sym = false;
     if (!fin)
-      c.check("sill-psd", "C17:sill:not-finite:" + kcls + ":" + g.consClass, false, INFINITY, 0,
+      c.check("sill-psd", std::string("C17:sill:not-finite:") + (exotic ? "exotic-type" : (csMulti ? "constant-sill-multivariate" : cls + ":" + g.consClass)), false, INFINITY, 0,
               fmt("structure %d (%s) has a NaN/undefined sill", k, tk.c_str()));
     else if (!sym)
       c.check("sill-psd", "C17:sill:not-symmetric:" + kcls, false, 1, 0, fmt("structure %d (%s)", k, tk.c_str()));
@@ -807,7 +813,7 @@ static void validateModel(Ctx& c, const Cfg& g, Model* m, const std::string& ep,
     viol = std::max(viol, 0.);
     // key = element, source, and what happened to the structure list (the type of bound is in the detail)
     std::string red = g.noreduce ? "noreduce" : (ncov < (int)g.types.size() ? "structures-reduced" : "reduce-allowed-none-discarded");
-    std::string key = "C17:cons:" + ek + ":" + std::string(SRCN[g.src]) + ":" + red +
+    std::string key = "C17:cons:" + ek + ":" + red +
                       (s.elem == EConsElem::SILL && !g.goulard ? ":goulard-off" : "") + (g.contradictory ? ":contradictory-box" : "");
     c.check("cons-" + ek, key, viol <= tol, viol, tol,
             fmt("structure %d(%s) %s[%d,%d] %s %.10g, fitted %.10g", s.icov, std::string(g.types[s.icov].getKey()).c_str(),
@@ -826,7 +832,7 @@ static void validateModel(Ctx& c, const Cfg& g, Model* m, const std::string& ep,
       double err = std::fabs(tot - g.constSill);
       if (!std::isfinite(tot)) err = INFINITY;
       std::string red = g.noreduce ? "noreduce" : (ncov < (int)g.types.size() ? "structures-reduced" : "reduce-allowed-none-discarded");
-      c.check("cons-constsill", "C17:cons:constant-sill:" + cls + ":" + red, err <= tol, err, tol,
+      c.check("cons-constsill", std::string("C17:cons:constant-sill:") + (csMulti ? "multivariate" : "nvar=1:" + red), err <= tol, err, tol,
               fmt("variable %d total sill %.10g, requested %.10g", iv, tot, g.constSill));
     }
   }
@@ -1158,7 +1164,7 @@ static void run_case_inner(Rng& r, Ctx& c)
       else if (g.src == SRC_VMAP && g.nvar > 1) cls = "multivariate-vmap";
       else if (!FFFF(g.constSill) && g.nvar > 1) cls = "constant-sill-multivariate";
     }
-    c.check("no-exception", "C17:exception-instead-of-error-code:" + ep + ":" + cls, false, 1, 0,
+    c.check("no-exception", std::string("C17:exception-instead-of-error-code:") + (g.src == SRC_VMAP ? "vmap:" : "vario:") + cls, false, 1, 0,
             std::string(e.what()).substr(0, 200) + " types " + typesKey(g));
     return;
   }
